@@ -53,7 +53,8 @@ def calls(n1: str, n2: str, n3: str, n4: str, q0: bool, q1: bool) -> bool:
     pre: len(n1) <= 2 and len(n2) <= 2 and len(n3) <= 2 and len(n4) <= 2
     post: _
     """
-    tick()
+    if tick():
+        return True
     t = int(PART) if PART else 1
     qi = bits(q0, q1)
     if qi >= len(QNAMES):
@@ -99,7 +100,8 @@ def compare_ops(a0: bool, a1: bool, a2: bool, a3: bool, b0: bool, b1: bool, b2: 
     pre: True
     post: _
     """
-    tick()
+    if tick():
+        return True
     q, t = [int(x) for x in (PART or "2,1").split(",")]
     i, j = bits(a0, a1, a2, a3), bits(b0, b1, b2, b3)
     if i >= 10 or j >= 10 or q >= 10:
@@ -129,7 +131,8 @@ def bin_ops(a0: bool, a1: bool, a2: bool, a3: bool, q0: bool, q1: bool, q2: bool
     pre: True
     post: _
     """
-    tick()
+    if tick():
+        return True
     i, q, u = bits(a0, a1, a2, a3), bits(q0, q1, q2, q3, q4), (int(PART) if PART else 0)
     if i >= 13 or q >= 13 + 4:
         return True
@@ -164,7 +167,8 @@ def literals(v1: Lit, v2: Lit) -> bool:
     pre: all(not isinstance(v, float) or v == v for v in (v1, v2))
     post: _
     """
-    tick()
+    if tick():
+        return True
     qi, t = [int(x) for x in (PART or "1,0").split(",")]
     q = QUERIES[qi]
     v3 = 1
@@ -198,7 +202,8 @@ def literal_types(v1: Lit, v2: Lit, k0: bool, k1: bool, t0: bool, t1: bool) -> b
     pre: all(not isinstance(v, float) or v == v for v in (v1, v2))
     post: _
     """
-    tick()
+    if tick():
+        return True
     ty = TYPES[bits(k0, k1)]
     t = bits(t0, t1)
     c1 = ast.Constant(value=v1, lineno=1, col_offset=4)
@@ -231,7 +236,8 @@ def asts_imports(s0: bool, s1: bool, s2: bool, u0: bool, u1: bool, u2: bool, m0:
     pre: True
     post: _
     """
-    tick()
+    if tick():
+        return True
     k, m = (int(PART) if PART else 0), bits(m0, m1)
     if k >= len(NODE_NAMES) or m >= len(MODULES):
         return True
@@ -260,7 +266,8 @@ def calls_reach(n1: str, q: str) -> bool:
     pre: len(n1) <= 2 and len(q) <= 2
     post: _
     """
-    tick()
+    if tick():
+        return True
     c1 = _call(_name(n1, 1), [], 1)
     tree = ast.Module(body=[ast.Expr(value=c1, lineno=1, col_offset=0)], type_ignores=[])
     r = _report()
